@@ -476,7 +476,8 @@ fn check_font(ctx: &Ctx, file: &[u8], index: usize, exp: &Expect, len: Lenient, 
             Ok(Ok(got)) => {
                 let mut notes = Notes::default();
                 for (k, d) in compare(&got, exp, &mut notes) {
-                    ctx.violation(&format!("{}{}", pfx, k), || witness(file, index, exp, &what(), json!({"seam": seam, "mismatch": d})));
+                    // a reconstruction that succeeds is judged like any other, whatever the transform combination
+                    ctx.violation(&format!("C11:{}", k), || witness(file, index, exp, &what(), json!({"seam": seam, "mismatch": d})));
                 }
                 if seam == 0 {
                     if notes.overlap_kept > 0 {
